@@ -6,13 +6,17 @@ import os
 ROOT = os.path.dirname(os.path.dirname(os.path.abspath(__file__)))
 
 # id -> (technique, level text, level note, design ref)
+BFS = "explicit-state BFS over the real tree API (op sequences, SHA-1 state dedup)"
 CLAIMED = {
-    "C01": (
-        "explicit-state BFS over the real tree API (op sequences, state-hash dedup), py+cy builds",
-        "Every state of the bounded tree/alphabet/depth space reachable through the real bt objects is visited once and the balance-sheet identities and the end-of-date rows are checked on it; exhaustive within the stated bounds, on the interpreted and the compiled build.",
-        "Bounds: 3 tree shapes, 22-op alphabet, depth 3 (quick) / 4-5 (thorough), 4 dates, dyadic and decimal price tables; trusted: CPython, pandas/numpy, the ~40-line identity oracle in btmc/ref.py.",
-        "DESIGN.md 5 C01",
-    ),
+    "C01": (BFS + ", py+cy builds", "Every state of the bounded tree/alphabet/depth space reachable through the real bt objects is visited once and the balance-sheet identities and end-of-date rows are checked on it; exhaustive within the stated bounds, on the interpreted and the compiled build.", "Bounds: trees T1/T2/T3, 22-op alphabet, depth 3 (quick) / 4-5 (thorough), 4 dates, dyadic, decimal and zero-touching price tables; trusted: CPython, pandas/numpy, the identity oracle in btmc/ref.py.", "DESIGN.md 5 C01"),
+    "C02": (BFS + " with a per-op P&L oracle + exhaustive run family", "Every transition of the bounded op space and every date of every run of the bounded run family is reconciled against a P&L attribution recomputed from executed trades (spy on transact), the driver's own prices, spreads and fee functions.", "Bounds as C01 with the cost alphabet (5 fee families, spreads, custom prices, non-flow adjusts), FI tree F1; run family = menus of all stock algos; trusted: btmc/ledger.py arithmetic.", "DESIGN.md 5 C02"),
+    "C03": (BFS + " with the index recurrence after every op; exhaustive run family; scaled-run triples", "The index recurrence is evaluated against the driver's own tally of flows after every single operation of the bounded space and on every date of every run; capital-scale invariance is decided on enumerated triples of runs.", "Reading: the recurrence is the precise half of the statement (DESIGN 5 C03 note). Bounds: flow-heavy alphabet depth 3/4; capital x{1/1000,1,64}.", "DESIGN.md 5 C03"),
+    "C05": ("exhaustive Cartesian grid (price x multiplier x position x amount x spread x fee x mode x build) vs brute-force reference", "Every point of the finite grid is executed on the real allocate path (both builds) and compared with the largest affordable quantity found by bisection on the monotone cost; known sizing defects are pinned point-by-point with their exact wrong outcome so any other deviation is reported.", "Grid: 130k points quick / ~2M thorough per build; fee families none/flat/proportional/per-share/max(flat,per-share); points outside the property's fee domain are not judged.", "DESIGN.md 5 C05"),
+    "C07": (BFS + " with a per-node cash ledger oracle + exhaustive run family", "Per executed trade and per node/date the cash ledger is rebuilt from the spy's trade log and the driver's own fee function and compared with capital, fees, flows and outlays on every transition / date.", "Bounds as C02 incl. 3-level tree T3 with fees; trusted: btmc/ledger.py.", "DESIGN.md 5 C07"),
+    "C08": ("deviation-bounded placement: every history x every position x {1,2,3 redundant updates}; every prefix x every (node, public property) as first read", "All placements of redundant updates and of a first read of any public property inside all op histories up to the bound are executed; snapshots, raw state keys, frozen past rows and series ends are compared exactly.", "Bounds: reduced 11-14 op alphabet, prefixes <= 2 (quick) / 3, histories <= 3 / 4, trees T1,T2,T3,F1(,F2).", "DESIGN.md 5 C08"),
+    "C10": ("exhaustive run family on both builds + enumerated ill-formed situations", "Every backtest of the bounded family (menus containing every stock algo) must complete with finite series and working reports on py and cy; every situation of each ill-formed class must raise and leave earlier rows untouched.", "Family well-formedness conditions in DESIGN 4; the known sizing-guard failures are pinned by their exact allocate request (known/C10-sizing.txt).", "DESIGN.md 5 C10"),
+    "C12": ("exhaustive product: every subset of 8-timestamp windows x 5 schedulers x 8 flag settings x every date, x call-skipping deviations; counters over all parameters; real backtests", "All indices that can be formed from hand-picked boundary windows (ISO week 53/1, New Year, leap day, quarter end, intraday, sparse) are enumerated and each scheduler's answer on each date is compared with plain datetime arithmetic, also when the scheduler is not evaluated on every date.", "First/last date are governed by their flags (pinned test_run_period).", "DESIGN.md 5 C12"),
+    "C13": ("exhaustive enumeration of stacks (length <= 4/5, nested one level, Or, Not) against a reference interpreter; truth tables; Strategy.run call logs", "Every stack shape of the bounded family is executed on the real AlgoStack/Or/Not and its call log and result compared with a 12-line interpreter; Require and RunIfOutOfBounds tables and the temp/perm/run-order contract of Strategy.run are enumerated.", "run_always applies to direct members of a stack.", "DESIGN.md 5 C13"),
 }
 
 PENDING = "check not built yet in this session (work in progress, see DESIGN.md section 5)"
